@@ -1,4 +1,6 @@
 """C04 - miter output is 1 exactly when the compared circuits differ."""
+import zlib
+
 from rv.gen import circuits as G
 from rv.oracle import sim
 from rv.oracle.sim import Net
@@ -136,11 +138,26 @@ def check_pair(case, ctx, c0d, c1d):
         ctx.count("skipped:no_shared_endpoint")
         ctx.trivial()
         return
-    conv = (lambda x: set(x)) if case["as_set"] else (lambda x: list(x))
+    form = zlib.crc32(repr((sorted(case["startpoints"] or []), sorted(case["endpoints"] or []))).encode()) % 8
+    if form == 0:
+        conv = lambda x: (y for y in list(x))  # noqa: E731  one-shot generator
+    elif form == 1:
+        conv = lambda x: iter(list(x))  # noqa: E731
+    elif form == 2:
+        conv = lambda x: tuple(x)  # noqa: E731
+    elif form == 3:
+        conv = lambda x: dict.fromkeys(x).keys()  # noqa: E731
+    elif form == 4:
+        conv = lambda x: frozenset(x)  # noqa: E731
+    else:
+        conv = (lambda x: set(x)) if case["as_set"] else (lambda x: list(x))
+    if case["startpoints"] or case["endpoints"]:
+        ctx.count(f"node_sets_as:{('generator', 'iterator', 'tuple', 'dict_keys', 'frozenset')[form] if form < 5 else ('set' if case['as_set'] else 'list')}")
     sarg = conv(case["startpoints"]) if case["startpoints"] else None
-    earg = conv(case["endpoints"]) if case["endpoints"] else None
+    # endpoints are measured with len() by the documented code ("set of str"): sized collections only
+    earg = (conv if form >= 2 else list)(case["endpoints"]) if case["endpoints"] else None
     ok, m = ctx.call(cg.tx.miter, c0, c1, sarg, earg)
-    if case.get("repeat"):
+    if case.get("repeat") and form >= 2:
         from rv.props._util import repeat_call
 
         ok, m = repeat_call(ctx, "miter", "miter", cg.tx.miter, (c0, c1, sarg, earg), {}, (ok, m))
